@@ -101,14 +101,27 @@ def showVal : Option (Option (List Bytes)) → String
 def showFwd (f : Fwd) : String :=
   "xff=" ++ showVal f.xff ++ " xfp=" ++ showVal f.xfp ++ " xfh=" ++ showVal f.xfh
 
-def showOut (o : Out) (k : Consumers) (ck : String) (attempts : Option (List Fwd)) : String :=
+def showOut (o : Out) (k : Consumers) (ck : String) (attempts : Option (List Fwd)) (fcgi : Option (Option String)) : String :=
   "ip=" ++ Hex.encode o.clientIP ++ " tp=" ++ (if o.trusted then "1" else "0") ++
   " ph=" ++ Hex.encode k.placeholder ++ " tm=" ++ Hex.encode k.template ++ " lg=" ++ Hex.encode k.logField ++
   " cm=" ++ (if k.clientMatch then "1" else "0") ++ " rm=" ++ (if k.remoteMatch then "1" else "0") ++
   " pp=" ++ (match k.proxyProto with | some a => Hex.encode a ++ "/0" | none => "invalid") ++ " ck=" ++ ck ++
-  (match attempts with
-   | none => " err"
-   | some l => " " ++ " | ".intercalate (l.map showFwd))
+  (match fcgi with
+   | some (some e) => " " ++ e
+   | some none => " err"
+   | none =>
+     match attempts with
+     | none => " err"
+     | some l => " " ++ " | ".intercalate (l.map showFwd))
+
+/-- the set of values a CGI variable was/can be seen to take: `absent` or sorted, `|`-separated hex -/
+def showSet (l : List Bytes) : String :=
+  if l.isEmpty then "absent" else
+  "|".intercalate (((l.map Hex.encode).eraseDups).mergeSort (fun a b => a < b || a == b))
+
+def showFcgi (e : FcgiEnv) : String :=
+  "fcgi ra=" ++ Hex.encode e.remoteAddr ++ " rp=" ++ Hex.encode e.remotePort ++
+  " xff=" ++ showSet e.xff ++ " xfp=" ++ showSet e.xfp ++ " xfh=" ++ showSet e.xfh
 
 def parseSmall (s : String) : Option Nat :=
   if s == "0" then some 0 else if s == "1" then some 1 else if s == "2" then some 2 else none
@@ -212,7 +225,7 @@ def handle : List String → String
       if !provisionAccepts (exprs.zip verdicts) then "provision-error" else
       -- mode: 0 GET over HTTP/1.1 | 1 websocket over HTTP/2; ServeHTTP's rewriting of the prepared request
       -- (method, Upgrade/Connection, :protocol, Sec-WebSocket-Key) does not touch a modelled field
-      match parseTable ns nh tbl, parseSmall failsF, parseOps hopsF, (if modeF == "0" || modeF == "1" then parseSmall lbF else none) with
+      match parseTable ns nh tbl, parseSmall failsF, parseOps hopsF, (if modeF == "0" || modeF == "1" then (if lbF == "3" then some 3 else parseSmall lbF) else none) with
       | some table, some fails, some ops, some lb =>
         let cfg : Cfg PIdx :=
           { srvTrusted := srv.map (idxList 0), clientIPHeaders := ci, strict := st,
@@ -230,11 +243,16 @@ def handle : List String → String
               | some true => "1" | some false => "0" | none => "-")
            else "-")
           (serveAttempts (tableNet table) cfg ⟨remote, tls, host, early⟩ wire ops fails)
+          -- lb = 3: the fastcgi transport; the answer ends with what the application can be told
+          (if lb = 3 then some ((serveFcgi (tableNet table) cfg ⟨remote, tls, host, early⟩ wire ops).map showFcgi) else none)
       | _, _, _, _ => "bad-op"
     | _, _, _, _, _, _, _, _, _ => "bad-op"
   | _ => "bad-op"
 
 /-- counter-example lines replayed on the implementation on every run (see Witness.lean) -/
-def witnessLines : List String := []   -- the tree violates no clause of C10 (Witness.lean holds model facts about old behaviour)
+def witnessLines : List String :=
+  [-- Witness.fastcgi_forwarded_variable_full_fails: fastcgi transport, no trusted proxies, plain request for
+   -- host "a" from 1.2.3.4:80 carrying the field `X_Forwarded_For: 6.6.6.6`
+   "C10 req nil nil 0 . 000 312e322e332e343a3830 0 61 585f466f727761726465645f466f72:362e362e362e36 312e322e332e34:312e322e332e34:-:-:0000;362e362e362e36:362e362e362e36:-:-:0000 0 0 0 3 ."]
 
 end CaddyModel.C10
